@@ -81,6 +81,7 @@ type vfc15Judge struct {
 	classes  map[string]bool
 	names    map[string]bool
 	internal string
+	concFrom int64 // stamp from which other goroutines of the client ran (0 = never)
 }
 
 const vfc15Inf = int64(math.MaxInt64)
@@ -404,6 +405,25 @@ func (j *vfc15Judge) fail(symptom string, op *vfc15OpRec, format string, a ...in
 	return f
 }
 
+// tainted: other goroutines of the client (background updater, readers that refresh on a miss or open a leader's
+// connection) ran beside or before this operation. Broker.Open marks the broker as opened before it takes the broker's
+// lock, so a request sent by another goroutine in between fails with ErrNotConnected although the broker is healthy; the
+// client then sets the seed aside / drops the known broker without any network failure (known finding KF-C15-1).
+func (j *vfc15Judge) tainted(op *vfc15OpRec) bool {
+	return op.Conc || (j.concFrom > 0 && op.S > j.concFrom)
+}
+
+// failSpurious reports a broker that failed without a network failure: inside the region of the known finding under the
+// finding's symptom, outside it as the ordinary violation.
+func (j *vfc15Judge) failSpurious(symptom string, op *vfc15OpRec, format string, a ...interface{}) *vfcore.Failure {
+	if !j.tainted(op) {
+		return j.fail(symptom, op, format, a...)
+	}
+	f := j.fail("spurious-broker-failure", op, format, a...)
+	f.Regions = []string{"concurrent-callers"}
+	return f
+}
+
 func (j *vfc15Judge) history() interface{} {
 	evs := j.evs
 	if len(evs) > 4000 {
@@ -472,8 +492,13 @@ func (j *vfc15Judge) verdict(op *vfc15OpRec, o vfc15Own, res string) *vfcore.Fai
 				evidence = true
 			}
 		}
-		if !evidence && (l != nil || !op.Conc) {
-			return j.fail("refresh-verdict", op, "ErrOutOfBrokers although no request or dial failed after the last response consumed (%v)", l != nil)
+		if !evidence && l == nil && op.Conc {
+			// other goroutines may have set every seed aside and dropped every broker before this call began
+			j.class("unjudged:oob-under-concurrency")
+			return nil
+		}
+		if !evidence {
+			return j.failSpurious("refresh-verdict", op, "ErrOutOfBrokers although no request or dial failed after the last response was consumed (own response consumed: %v)", l != nil)
 		}
 		j.class("feat:out-of-brokers")
 		if op.Conc {
@@ -481,7 +506,7 @@ func (j *vfc15Judge) verdict(op *vfc15OpRec, o vfc15Own, res string) *vfcore.Fai
 			return nil
 		}
 		if who := j.oobReachable(op); who != "" {
-			return j.fail("oob-while-reachable", op, "ErrOutOfBrokers although %s would have answered", who)
+			return j.failSpurious("oob-while-reachable", op, "ErrOutOfBrokers although %s would have answered", who)
 		}
 		return nil
 	case res == "" || (len(res) > 1 && res[0] == 'K'):
@@ -619,6 +644,7 @@ func (j *vfc15Judge) judgeRead(op *vfc15OpRec) *vfcore.Failure {
 	case "brokers":
 		cs := j.cands("", op)
 		var ms []*vfc15Resp
+		unexplained := ""
 		for _, l := range cs {
 			want := map[int32]string{}
 			if l != nil {
@@ -630,24 +656,29 @@ func (j *vfc15Judge) judgeRead(op *vfc15OpRec) *vfcore.Failure {
 					ok = false
 				}
 			}
-			tolerated := false
+			tolerated, dropped := false, ""
 			for id, addr := range want {
 				if _, present := ans.Brokers[id]; !present {
 					if j.possiblyMissing(addr, l.Got, op.E) {
 						tolerated = true
 					} else {
-						ok = false
+						dropped = fmt.Sprintf("broker %d at %s (response #%d)", id, addr, l.I)
 					}
 				}
 			}
-			if ok {
+			if ok && dropped == "" {
 				ms = append(ms, l)
 				if tolerated {
 					j.class("feat:deregistered-broker-visible")
 				}
+			} else if ok {
+				unexplained = dropped
 			}
 		}
 		if len(ms) == 0 {
+			if unexplained != "" {
+				return j.failSpurious("answer:brokers", op, "Brokers()=%v lacks %s although no request or dial to its address failed since", ans.Brokers, unexplained)
+			}
 			return j.fail("answer:brokers", op, "Brokers()=%v matches no broker set that can have been current (%s)", ans.Brokers, j.describe(cs))
 		}
 		if len(cs) > 1 {
@@ -679,6 +710,7 @@ func (j *vfc15Judge) judgeRead(op *vfc15OpRec) *vfcore.Failure {
 	ct := j.cands(st.Topic, op)
 	var ms []*vfc15Resp
 	part := int32(st.Part)
+	unexplained := ""
 	switch st.Kind {
 	case "partitions", "writable":
 		for _, l := range ct {
@@ -761,6 +793,8 @@ func (j *vfc15Judge) judgeRead(op *vfc15OpRec) *vfcore.Failure {
 					} else if ans.Err == "K5" && j.possiblyMissing(addr, lb.Got, op.E) {
 						matched = true
 						j.class("feat:deregistered-broker-visible")
+					} else if ans.Err == "K5" {
+						unexplained = fmt.Sprintf("leader %d at %s (response #%d)", p.Leader, addr, lb.I)
 					}
 				}
 			}
@@ -774,6 +808,9 @@ func (j *vfc15Judge) judgeRead(op *vfc15OpRec) *vfcore.Failure {
 	}
 	if len(ct) > 1 {
 		j.class("feat:ambiguous-candidates")
+	}
+	if len(ms) == 0 && unexplained != "" {
+		return j.failSpurious("answer:leader", op, "Leader() = ErrLeaderNotAvailable although the view names %s and no request or dial to its address failed since", unexplained)
 	}
 	if len(ms) == 0 {
 		return j.fail("answer:"+st.Kind, op, "answer %+v matches no view that can have been current: candidates for the topic:%s", *ans, j.describeViews(ct, st.Topic))
@@ -1012,6 +1049,11 @@ func vfc15JudgeRun(run *vfc15Run, rec *vfcore.Rec) *vfcore.Failure {
 		f := vfcore.Failf("harness-internal", "%s", j.internal)
 		f.History = j.history()
 		return f
+	}
+	for _, op := range j.ops {
+		if (op.Conc || op.Phase == "B") && (j.concFrom == 0 || op.S < j.concFrom) {
+			j.concFrom = op.S
+		}
 	}
 	nReads := 0
 	for _, op := range j.ops {
